@@ -20,6 +20,9 @@ CONFIGS = {
                        "-DPP_METHD=LAZYR;OATEP"], "cflags": "-O2"},
     "cov": {"cmake": [], "cflags": "-O1 -g -finstrument-functions"},
     "mt": {"cmake": ["-DMULTI=PTHREAD"], "cflags": "-O2"},
+    # C13: the direct map-from-randomness entry point ep_map_rnd dispatches on the compile-time EP_MAP only
+    "map-basic": {"cmake": ["-DEP_METHD=PROJC;LWNAF;COMBS;INTER;BASIC"], "cflags": "-O2"},
+    "map-swift": {"cmake": ["-DEP_METHD=PROJC;LWNAF;COMBS;INTER;SWIFT"], "cflags": "-O2"},
 }
 
 
